@@ -35,14 +35,17 @@ void Dma::Channel::Start() {
 
 void Dma::Channel::Tick(Dma& parent) {
     static constexpr u32 DataMemoryOffset = 0x20000;
+    // DSP main memory has a 17-bit word address space (two 64K-word banks); keep every access inside it,
+    // like MemoryInterface::DataReadA32/DataWriteA32 do
+    static constexpr u32 DataMemoryMask = 0x1FFFF;
     if (dword_mode) {
         u32 value = 0;
         switch (src_space) {
         case 0: {
             u32 l = current_src & 0xFFFFFFFE;
             u32 h = current_src | 1;
-            value = parent.shared_memory.ReadWord(DataMemoryOffset + l) |
-                    ((u32)parent.shared_memory.ReadWord(DataMemoryOffset + h) << 16);
+            value = parent.shared_memory.ReadWord(DataMemoryOffset + (l & DataMemoryMask)) |
+                    ((u32)parent.shared_memory.ReadWord(DataMemoryOffset + (h & DataMemoryMask)) << 16);
             break;
         }
         case 1:
@@ -60,8 +63,8 @@ void Dma::Channel::Tick(Dma& parent) {
         case 0: {
             u32 l = current_dst & 0xFFFFFFFE;
             u32 h = current_dst | 1;
-            parent.shared_memory.WriteWord(DataMemoryOffset + l, (u16)value);
-            parent.shared_memory.WriteWord(DataMemoryOffset + h, (u16)(value >> 16));
+            parent.shared_memory.WriteWord(DataMemoryOffset + (l & DataMemoryMask), (u16)value);
+            parent.shared_memory.WriteWord(DataMemoryOffset + (h & DataMemoryMask), (u16)(value >> 16));
             break;
         }
         case 1:
@@ -80,7 +83,7 @@ void Dma::Channel::Tick(Dma& parent) {
         u16 value = 0;
         switch (src_space) {
         case 0:
-            value = parent.shared_memory.ReadWord(DataMemoryOffset + current_src);
+            value = parent.shared_memory.ReadWord(DataMemoryOffset + (current_src & DataMemoryMask));
             break;
         case 1:
             std::printf("Unimplemented MMIO space");
@@ -95,7 +98,7 @@ void Dma::Channel::Tick(Dma& parent) {
 
         switch (dst_space) {
         case 0:
-            parent.shared_memory.WriteWord(DataMemoryOffset + current_dst, value);
+            parent.shared_memory.WriteWord(DataMemoryOffset + (current_dst & DataMemoryMask), value);
             break;
         case 1:
             std::printf("Unimplemented MMIO space");
